@@ -775,6 +775,7 @@ nnls_normal_block3(cholmod_sparse *AtA, cholmod_dense *Atb, int verbose,
         int i, j, k;
         int iter, max_iter, solves, residual_calcs;
         int feasible;
+        int solved_on_F;
         clock_t t0, t1;
         double kkt_tolerance, y_min, residual;
 
@@ -807,6 +808,8 @@ nnls_normal_block3(cholmod_sparse *AtA, cholmod_dense *Atb, int verbose,
 
         nF = nG = nH1 = nH2 = 0;
         nGprime = -1;
+        /* x = 0 is the solution on the (empty) passive set */
+        solved_on_F = true;
 
         t0 = clock();
 
@@ -918,7 +921,13 @@ nnls_normal_block3(cholmod_sparse *AtA, cholmod_dense *Atb, int verbose,
                  * If we've satisfied the KKT conditions, we're done. 
                  */
 
-                if (nH2 == 0) break;
+                /*
+                 * ...provided that x actually solves the problem restricted
+                 * to the current passive set. After a partial step along the
+                 * descent direction it does not (yet), and the multipliers
+                 * computed from it say nothing about optimality.
+                 */
+                if (nH2 == 0 && solved_on_F) break;
 
                 ninf = nH1 + nH2;
 
@@ -1023,6 +1032,7 @@ nnls_normal_block3(cholmod_sparse *AtA, cholmod_dense *Atb, int verbose,
                                             ((double*)(x_F->x))[i];
                                 cholmod_l_free_dense(&x_F, c);
                                 feasible = true;
+                                solved_on_F = true;
 
                                 if (verbose)
                                         printf("\tSolution entirely "
@@ -1047,6 +1057,7 @@ nnls_normal_block3(cholmod_sparse *AtA, cholmod_dense *Atb, int verbose,
                                 }
                                 cholmod_l_free_dense(&x_F, c);
                                 feasible = false;
+                                solved_on_F = false;
 
                                 if (verbose)
                                         printf("\tConstraining %ld coefficients"
@@ -1089,6 +1100,7 @@ nnls_normal_block3(cholmod_sparse *AtA, cholmod_dense *Atb, int verbose,
                                 feasible = walk_descents(AtA_F, Atb_F, x, x_F,
                                     F, &nF, H1, &nH1, &residual,
                                     &residual_calcs, verbose, c);
+                                solved_on_F = false;
 
                         } /* if (nF_inf == 0) */
 
